@@ -282,7 +282,15 @@ def gen_chain_workspace(rnd: random.Random, root="/vc"):
             if rnd.random() < 0.3:
                 above = fixture_src(rnd, "uses_" + name, params=[name]) + "\n"
                 tags.append("user-above-override")
-            files[d + "/conftest.py"] = "import pytest\n\n" + above + link(req, pl) + "\n"
+            if rnd.random() < 0.3:
+                # the link is provided by an import: the definition lives in a module beside the conftest
+                # (also modules named like standard-library modules, legal names for local modules)
+                mod = rnd.choice(["chain_fx", "http", "types", "logging"])
+                files[d + "/" + mod + ".py"] = "import pytest\n\n" + link(req, pl + " (imported)") + "\n"
+                files[d + "/conftest.py"] = "import pytest\n" + rnd.choice(["from .%s import %s\n" % (mod, name), "from .%s import *\n" % mod]) + "\n" + above
+                tags.append("link:imported" + ("-stdlib-named" if mod != "chain_fx" else ""))
+            else:
+                files[d + "/conftest.py"] = "import pytest\n\n" + above + link(req, pl) + "\n"
         elif pl == "plugin":
             p = root + "/plugsrc/chain_plugin.py"
             files[p] = "import pytest\n\n" + link(req, pl) + "\n"
